@@ -97,13 +97,6 @@ Proof. apply alive_iff. Qed.
 Lemma alive_same_cell s s' e : cell s' (fst e) = cell s (fst e) -> l_is_alive s' e = l_is_alive s e.
 Proof. intros H. unfold l_is_alive. rewrite H. reflexivity. Qed.
 
-Lemma no_free_has_free s : (forall i, is_free (cell s i) = false) -> has_free s = false.
-Proof.
-  intros H. unfold has_free. destruct (existsb _ _) eqn:E; [|reflexivity].
-  apply existsb_exists in E. destruct E as [[i c] [Hin Hf]]. cbn [snd] in Hf.
-  apply in_elements_cell in Hin. specialize (H i). unfold cell in H. rewrite Hin in H. congruence.
-Qed.
-
 (* ------------------------------------------------------------------ *)
 (* the invariant *)
 
@@ -248,7 +241,7 @@ Proof.
     { intros i. destruct (is_free (cell (sl_life w) i)) eqn:Y; [|reflexivity].
       apply (I_free _ HI) in Y. rewrite F in Y. destruct Y. }
     unfold valid_choice. rewrite (J_beyond _ (I_life _ HI)) by lia.
-    rewrite N.eqb_refl, (no_free_has_free _ X). reflexivity.
+    rewrite N.eqb_refl, (no_free_has_free _ (I_life _ HI) X). reflexivity.
   - assert (is_free (cell (sl_life w) i) = true) as X by (apply (I_free _ HI); rewrite F; left; reflexivity).
     unfold valid_choice. destruct (cell (sl_life w) i); try discriminate. reflexivity.
 Qed.
